@@ -31,6 +31,19 @@
 (*                                                                         *)
 (* FlagRule = "either" is the rule above; "term" (flag from terminations   *)
 (* only) is the negative control.                                          *)
+(*                                                                         *)
+(* Two environment modes (variable mode, fixed by Init):                   *)
+(*  "auto"  vectorised environment as above (same-step auto-reset);        *)
+(*  "loop"  one plain environment (train_multi_agent_on_policy on a        *)
+(*    PettingZoo ParallelEnv without num_envs): a step that ends the       *)
+(*    episode returns the terminal observation and leaves the environment  *)
+(*    finished (over); the LOOP then calls env.reset() INSIDE the rollout  *)
+(*    (LoopReset) before anything else happens.  The observation stored    *)
+(*    for the next step is the first one of the new episode and carries    *)
+(*    the flag of the step that ended the old one; next_state stays the    *)
+(*    observation the last step returned (the terminal one, masked by      *)
+(*    next_done = 1).  ResetClears = TRUE (the loop clears its flags after *)
+(*    its own reset) is the second negative control.                       *)
 (***************************************************************************)
 EXTENDS Integers, Sequences, FiniteSets, TLC
 
@@ -39,18 +52,23 @@ CONSTANTS EnvSet, AgentSet,   \* sets of environment / agent indices explored (I
           MaxT,           \* longest rollout explored
           MaxRolls,       \* number of rollouts explored
           MaxEp,          \* bound on episode numbers (CONSTRAINT)
-          FlagRule        \* "either" | "term"
+          FlagRule,       \* "either" | "term"
+          Mode,           \* "auto" | "loop": environment mode explored (Init)
+          ResetClears     \* BOOLEAN: negative control, the loop zeroes its flags after its own reset inside a rollout
 
 VARIABLES cols,           \* the columns of this run: a set of <<environment, agent>> pairs (fixed by Init)
           ep, k,          \* environment side: [Envs -> Nat]
-          obs,            \* [Cols -> <<episode, step>>]  observation last returned by reset / step
+          mode,           \* "auto" | "loop" (fixed by Init)
+          over,           \* [Envs -> BOOLEAN] "loop" mode: the episode has ended and the loop has not reset the environment yet
+          obs,            \* [Cols -> <<episode, step>>]  observation the loop acts on next (last returned by reset / step)
+          nxt,            \* [Cols -> <<episode, step>>]  observation returned by the last step (the loop's next_obs / next_state)
           cur,            \* [Cols -> 0..1]               the loop's `done` / `next_done`
           dones,          \* Seq([Cols -> 0..1])          flags recorded in the running rollout
           sobs,           \* Seq([Cols -> <<ep, k>>])     observations acted on in the running rollout
           nroll,          \* rollouts handed to learn so far
           up              \* environment has been reset at least once
 
-vars == <<cols, ep, k, obs, cur, dones, sobs, nroll, up>>
+vars == <<cols, mode, over, ep, k, obs, nxt, cur, dones, sobs, nroll, up>>
 
 Cols == cols
 Envs == {c[1] : c \in cols}
@@ -66,37 +84,60 @@ Outcomes == { o \in [Cols -> {Go} \cup {KindPair(kd) : kd \in Kinds}] :
                 \A e \in Envs : (\A a \in Agents : Ended(o[<<e, a>>])) \/ (\A a \in Agents : ~Ended(o[<<e, a>>])) }
 EnvEnded(o, e) == \E a \in Agents : Ended(o[<<e, a>>])
 
-InitWith(es, as) ==
-  /\ cols = es \X as
+Settled == \A e \in Envs : ~over[e]          \* no reset by the loop is pending
+
+InitWith(es, as, md) ==
+  /\ cols = es \X as /\ mode = md /\ over = [e \in es |-> FALSE]
+  /\ nxt = [c \in es \X as |-> <<0, 0>>]
   /\ ep = [e \in es |-> 0] /\ k = [e \in es |-> 0]
   /\ obs = [c \in es \X as |-> <<0, 0>>]
   /\ cur = [c \in es \X as |-> 0] /\ dones = <<>> /\ sobs = <<>> /\ nroll = 0 /\ up = FALSE
-Init == InitWith(EnvSet, AgentSet)
+Init == InitWith(EnvSet, AgentSet, Mode)
 
 --------------------------------------------------------------------------------
 (* env.reset() at the start of an agent's turn: every environment begins a fresh episode (any larger number: *)
-(* evaluation episodes may have run on the same environment in between)                                        *)
+(* evaluation episodes may have run on the same environment in between).  Never inside a rollout.              *)
 ResetTo(new) ==
-  /\ dones = <<>> /\ nroll < MaxRolls
+  /\ dones = <<>> /\ nroll < MaxRolls /\ Settled
   /\ \A e \in Envs : new[e] > ep[e]
   /\ ep' = new /\ k' = [e \in Envs |-> 0]
   /\ obs' = [c \in Cols |-> <<new[c[1]], 0>>]
+  /\ nxt' = obs'
   /\ cur' = Zero /\ up' = TRUE
-  /\ UNCHANGED <<cols, dones, sobs, nroll>>
+  /\ UNCHANGED <<cols, mode, over, dones, sobs, nroll>>
 Reset == ResetTo([e \in Envs |-> ep[e] + 1])
 
 (* one iteration of the collection loop: record, act, take the flags of this step *)
 StepWith(o) ==
-  /\ up /\ Len(dones) < MaxT /\ nroll < MaxRolls
+  /\ up /\ Len(dones) < MaxT /\ nroll < MaxRolls /\ Settled
   /\ dones' = Append(dones, cur)
   /\ sobs'  = Append(sobs, obs)
-  \* environment: same-step auto-reset
-  /\ ep'  = [e \in Envs |-> IF EnvEnded(o, e) THEN ep[e] + 1 ELSE ep[e]]
-  /\ k'   = [e \in Envs |-> IF EnvEnded(o, e) THEN 0 ELSE k[e] + 1]
+  /\ IF mode = "auto"
+     THEN \* environment: same-step auto-reset
+          /\ ep'  = [e \in Envs |-> IF EnvEnded(o, e) THEN ep[e] + 1 ELSE ep[e]]
+          /\ k'   = [e \in Envs |-> IF EnvEnded(o, e) THEN 0 ELSE k[e] + 1]
+          /\ over' = over
+     ELSE \* plain environment: the terminal observation is returned, the episode is over until somebody resets
+          /\ ep'  = ep
+          /\ k'   = [e \in Envs |-> k[e] + 1]
+          /\ over' = [e \in Envs |-> EnvEnded(o, e)]
   /\ obs' = [c \in Cols |-> <<ep'[c[1]], k'[c[1]]>>]
+  /\ nxt' = obs'
   \* loop
   /\ cur' = [c \in Cols |-> Flag(o[c])]
-  /\ UNCHANGED <<cols, nroll, up>>
+  /\ UNCHANGED <<cols, mode, nroll, up>>
+
+(* "loop" mode: the loop's own env.reset() inside the rollout, right after the step that ended the episode.     *)
+(* The observation to act on becomes the first one of the new episode; next_obs and the flags stay as they are. *)
+LoopResetTo(new) ==
+  /\ mode = "loop" /\ ~Settled
+  /\ \A e \in Envs : IF over[e] THEN new[e] > ep[e] ELSE new[e] = ep[e]
+  /\ ep' = new /\ k' = [e \in Envs |-> IF over[e] THEN 0 ELSE k[e]]
+  /\ obs' = [c \in Cols |-> IF over[c[1]] THEN <<new[c[1]], 0>> ELSE obs[c]]
+  /\ over' = [e \in Envs |-> FALSE]
+  /\ cur' = IF ResetClears THEN Zero ELSE cur
+  /\ UNCHANGED <<cols, mode, nxt, dones, sobs, nroll, up>>
+LoopReset == LoopResetTo([e \in Envs |-> IF over[e] THEN ep[e] + 1 ELSE ep[e]])
 
 SomeEnd(o)   == \E c \in Cols : Ended(o[c])
 OnlyBy(o, p) == SomeEnd(o) /\ \A c \in Cols : Ended(o[c]) => o[c] = p
@@ -107,19 +148,22 @@ StepMixed     == \E o \in Outcomes : SomeEnd(o) /\ ~OnlyBy(o, <<TRUE, FALSE>>) /
 
 (* agent.learn((states, ..., dones, values, next_state, next_done)); the next rollout starts with fresh flags *)
 (* on the SAME running episodes                                                                              *)
-Handed == [dones |-> dones, nd |-> cur, states |-> sobs, next |-> obs]
+Handed == [dones |-> dones, nd |-> cur, states |-> sobs, next |-> nxt]
 Learn ==
-  /\ Len(dones) >= 1
+  /\ Len(dones) >= 1 /\ Settled
   /\ dones' = <<>> /\ sobs' = <<>> /\ cur' = Zero /\ nroll' = nroll + 1
-  /\ UNCHANGED <<cols, ep, k, obs, up>>
+  /\ UNCHANGED <<cols, mode, over, ep, k, obs, nxt, up>>
 
-Next == Reset \/ StepContinue \/ StepTermOnly \/ StepTruncOnly \/ StepMixed \/ Learn
+Next == Reset \/ StepContinue \/ StepTermOnly \/ StepTruncOnly \/ StepMixed \/ LoopReset \/ Learn
 Spec == Init /\ [][Next]_vars
 Bound == \A e \in Envs : ep[e] <= MaxEp
 
 --------------------------------------------------------------------------------
-(* The clauses.  Rollout positions are 1..n (n = Len(dones)); position n+1 is the final next observation with *)
-(* flag next_done.  d_t below is the flag the learners use as d_t in                                          *)
+(* The clauses.  Rollout positions are 1..n (n = Len(dones)); position n+1 is the observation the column       *)
+(* continues from, with flag next_done (in "auto" mode it is also next_state; in "loop" mode next_state is the *)
+(* observation the last step returned, see BootstrapObs).  The clauses are stated for settled states (between  *)
+(* a step that ended the episode and the loop's reset the loop does nothing else).                             *)
+(* d_t below is the flag the learners use as d_t in                                                            *)
 (*   delta_t = r_t + gamma V_{t+1} (1 - d_{t+1}) - V_t ,  A_t = delta_t + gamma lambda (1 - d_{t+1}) A_{t+1}. *)
 n == Len(dones)
 FlagAt(t) == IF t <= n THEN dones[t] ELSE cur
@@ -128,20 +172,24 @@ EpAt(t, c) == ObsAt(t)[c][1]
 
 \* d_t = 1 exactly when the episode counter of the column advanced between observation t-1 and observation t
 \* (d_1 is never used by the recursion and is not constrained)
-FlagsMarkEpisodeStarts ==
+FlagsMarkEpisodeStarts == Settled =>
   \A c \in Cols : \A t \in 2..(n + 1) : (FlagAt(t)[c] = 1) <=> (EpAt(t, c) # EpAt(t - 1, c))
 
 \* the positions whose reward / value can reach the estimate of step t through the recursion: no set flag in between
 Window(t, c) == { u \in t..(n + 1) : \A j \in (t + 1)..u : FlagAt(j)[c] = 0 }
-NoLeak == \A c \in Cols : \A t \in 1..n : \A u \in Window(t, c) : EpAt(u, c) = EpAt(t, c)
+NoLeak == Settled => \A c \in Cols : \A t \in 1..n : \A u \in Window(t, c) : EpAt(u, c) = EpAt(t, c)
 
 \* the observations handed over are consecutive observations of the column: within an episode the next step,
 \* or the first observation of a later episode; in particular next_state follows states[n]
 Succ(x, y) == (y[1] = x[1] /\ y[2] = x[2] + 1) \/ (y[1] > x[1] /\ y[2] = 0)
 ObsChain == \A c \in Cols : \A t \in 2..(n + 1) : Succ(ObsAt(t - 1)[c], ObsAt(t)[c])
 
+\* the bootstrapping observation: where next_done = 0 (the only case in which its value is used) next_state is the
+\* observation the column continues from; in "auto" mode always
+BootstrapObs == (Settled /\ n >= 1) => \A c \in Cols : (cur[c] = 0 \/ mode = "auto") => nxt[c] = obs[c]
+
 \* every rollout starts with flags 0 (the loops never carry next_done over)
 FirstFlagZero == n >= 1 => dones[1] = Zero
 
-TypeOK == /\ cur \in [Cols -> 0..1] /\ Len(sobs) = n /\ n <= MaxT
+TypeOK == /\ cur \in [Cols -> 0..1] /\ Len(sobs) = n /\ n <= MaxT /\ mode \in {"auto", "loop"} /\ (mode = "auto" => Settled)
 ================================================================================
